@@ -9,7 +9,7 @@ OUT = "/tmp/wt/outb"
 props = [json.loads(l)["id"] for l in open(os.path.join(V, "properties.jsonl"))]
 sel = sys.argv[1:]
 jobs = []
-for d in sorted(glob.glob(os.path.join(OUT, "B*", "r*")) + glob.glob(os.path.join(OUT + "2", "B*", "r*")) + glob.glob(os.path.join(OUT + "3", "B*", "r*"))):
+for d in sorted(glob.glob(os.path.join(OUT, "B*", "r*")) + glob.glob(os.path.join(OUT + "2", "B*", "r*")) + glob.glob(os.path.join(OUT + "3", "B*", "r*")) + glob.glob(os.path.join(OUT + "4", "B*", "r*"))):
     if os.path.exists(os.path.join(d, "patch.diff")):
         bid = os.path.basename(os.path.dirname(d)) + "-" + os.path.basename(d)
         if not sel or any(bid.startswith(s) for s in sel):
